@@ -2938,6 +2938,12 @@ impl ModuleGraph {
   {
     self.module_slots.iter().filter_map(to_result).chain(
       self.redirects.iter().filter_map(|(specifier, found)| {
+        // an entry stored under a specifier wins over a redirect recorded
+        // for the same specifier (see `ModuleGraph::resolve`) and was
+        // already listed above
+        if self.module_slots.contains_key(specifier) {
+          return None;
+        }
         // a redirect source may be several hops away from its entry
         let module_slot = self.module_slots.get(self.resolve(found))?;
         to_result((specifier, module_slot))
